@@ -207,6 +207,11 @@ func (r *aeRun) enterLoop(fr *frame, l *loop, pred *ssa.BasicBlock) (any, bool, 
 		}
 	}
 	var exit *ssa.BasicBlock
+	if _, rexit, _ := rotatedGuard(l); rexit != nil {
+		// bottom-tested counting loop: it is left at the latch (a non-body successor of the header is an
+		// early return inside the position, not the loop's exit)
+		return nil, true, rexit
+	}
 	cands := append([]*ssa.BasicBlock{l.header}, l.backs...)
 	for _, cb := range cands {
 		for _, s := range cb.Succs {
